@@ -264,6 +264,7 @@ class Walker:
             if pn not in _assigned_names(node):
                 self.env[pn] = T.const(dv)
         self.acc_ctx: Dict[str, Tuple[int, int]] = {}
+        self.dict_build: Dict[str, Tuple[Any, Any]] = {}
         self.guards: Tuple[Term, ...] = ()
         self.iters: Tuple[Term, ...] = ()
         self.tries: Tuple[Tuple[int, str], ...] = ()
@@ -549,7 +550,12 @@ class Walker:
             args.append(self.expr(a))
         kws = []
         for k in n.keywords:
-            kws.append((k.arg if k.arg is not None else "**", self.expr(k.value)))
+            kv = self.expr(k.value)
+            skv = T.strip(kv)
+            if k.arg is None and skv[0] == "dict" and skv[1] and all(T.strip(kk)[0] == "const" and isinstance(T.strip(kk)[1], str) for kk, _v in skv[1]):
+                kws += [(T.strip(kk)[1], v) for kk, v in skv[1]]          # **{'a': x, 'b': y} is a=x, b=y
+                continue
+            kws.append((k.arg if k.arg is not None else "**", kv))
         sf = T.strip(f)
         # map(f, xs) is the comprehension (f(x) for x in xs)
         if sf == T.glob("map") and len(args) == 2 and not kws:
@@ -632,6 +638,11 @@ class Walker:
             self.env[name] = ("bag", sv[1] if sv[0] == "bag" else (), kind)
             return
         self.acc_ctx.pop(name, None)
+        self.dict_build.pop(name, None)
+        if sv[0] == "dict" and muts == {"<setitem>"} and self._in_loop == 0 and name not in self.dict_sets and self._setitem_only_consts(name):
+            self.dict_build[name] = (self.guards, self.iters)
+            self.env[name] = ("let", name, ev.idx, value)
+            return
         if muts - {"cancel", "set", "<setattr>"}:
             # a local object that is mutated through this name later on: keep the name opaque
             # (the bind event records what it was initialised from / aliases)
@@ -645,6 +656,16 @@ class Walker:
 
     _in_loop = 0
     _tmp_counter = 0
+
+    def _setitem_only_consts(self, name: str) -> bool:
+        """Every modification of the local is `name[<constant>] = value` (no nested stores, deletes, method calls)."""
+        for n in ast.walk(self.fi.node):
+            if isinstance(n, ast.Subscript) and isinstance(n.ctx, (ast.Store, ast.Del)) and _root_name(n) == name:
+                if not (isinstance(n.value, ast.Name) and isinstance(n.ctx, ast.Store) and isinstance(n.slice, ast.Constant)):
+                    return False
+            if isinstance(n, ast.Call) and isinstance(n.func, ast.Attribute) and _root_name(n.func.value) == name and n.func.attr in _MUTATORS:
+                return False
+        return True
 
     def assign_target(self, t: ast.AST, value: Term, node: ast.AST) -> None:
         if isinstance(t, ast.Name):
@@ -666,6 +687,18 @@ class Walker:
         elif isinstance(t, ast.Starred):
             self.assign_target(t.value, ("unknown", "starred-target"), node)
         else:
+            if isinstance(t, ast.Subscript) and isinstance(t.value, ast.Name) and t.value.id in self.dict_build:
+                nm = t.value.id
+                cur = T.strip(self.env.get(nm, T.var(nm)))
+                key = self.expr(t.slice)
+                if cur[0] == "dict" and self.dict_build[nm] == (self.guards, self.iters) and T.strip(key)[0] == "const" and not any(k == ("star2",) for k, _v in cur[1]):
+                    # a local dict that is completed entry by entry before it is used: the display of all entries
+                    pairs = tuple((k, v) for k, v in cur[1] if T.strip(k) != T.strip(key)) + ((T.strip(key), value),)
+                    ev = self.emit("bind", ("bind", T.var(nm), ("dict", pairs)), node)
+                    self.env[nm] = ("let", nm, ev.idx, ("dict", pairs))
+                    return
+                self.dict_build.pop(nm, None)
+                self.env[nm] = T.var(nm)
             if isinstance(t, ast.Subscript) and isinstance(t.value, ast.Name) and t.value.id in self.dict_sets and t.value.id in self.acc_ctx and self._comp_depth == 0:
                 nm = t.value.id
                 cur = T.strip(self.env.get(nm, ("bag", (), "set")))
@@ -817,6 +850,10 @@ class Walker:
 
     def s_If(self, st: ast.If):
         c = self.expr(st.test)
+        sc = T.strip(c)
+        if sc[0] == "const" and not isinstance(st.test, ast.Constant):
+            # a named constant (a module-level switch introduced later): only the live branch exists
+            return self.block(st.body if sc[1] else st.orelse)
         self.emit("test", c, st.test)
         saved_env, saved_g, saved_acc = dict(self.env), self.guards, dict(self.acc_ctx)
         self.guards = saved_g + (("g", c, True),)
